@@ -46,6 +46,19 @@ class Session(BusSession):
         self.rules = {l: Counter() for l in SLOTS}
         self.small = params.get('small', False)
         self.calls = []               # outstanding calls: [caller, callee, serial] in the order they were made
+        self._prefilled = False
+        self.prefill()
+
+    def prefill(self):
+        """Variant: three registered connections (two users) exist at the start, so that histories about names, rules and
+        pending replies of established connections fit into the depth bound."""
+        if self.params.get('prefill') and not self._prefilled:
+            self._prefilled = True
+            for l in ('U1', 'U2', 'V1'):
+                for op in (['conn', l], ['hello', l]):
+                    vs = self.apply(op)
+                    if vs:
+                        raise RuntimeError('prefill failed at %r: %s' % (op, vs[0].what))
 
     def lim_names(self):
         # with the two names of the small alphabet the limit must be 2 (unique name + 1), otherwise no request could exceed it
@@ -410,10 +423,13 @@ class Session(BusSession):
 def run(ctx):
     quick = ctx.tier == 'quick'
     depth = 7 if quick else 10
-    st = explore.bfs(ctx, FACTORY, {'small': quick}, max_depth=depth, ops_chunk=10)
+    with ctx.sub_budget(0.6):
+        st = explore.bfs(ctx, FACTORY, {'small': quick}, max_depth=depth, ops_chunk=10)
+    # second exploration from a state with three registered connections of two users (established-connection histories)
+    st2 = explore.bfs(ctx, FACTORY, {'small': quick, 'prefill': True}, max_depth=4 if quick else 6, ops_chunk=10)
     ctx.coverage.update({
-        'states': st['states'], 'transitions': st['transitions'], 'traces_validated_against_impl': st['transitions'],
-        'completed_depth': st['completed_depth'], 'fixpoint': st['fixpoint'],
+        'states': st['states'] + st2['states'], 'transitions': st['transitions'] + st2['transitions'], 'traces_validated_against_impl': st['transitions'] + st2['transitions'],
+        'completed_depth': st['completed_depth'], 'fixpoint': st['fixpoint'], 'prefilled_variant': {'states': st2['states'], 'transitions': st2['transitions'], 'completed_depth': st2['completed_depth']},
         'bound': '4 client slots (3 of uid 1000, 1 of uid 65534); limits %r; BFS depth %d' % (LIM, depth),
     })
     ctx.assumptions = ['the counter model', 'a connection the listener has not accepted yet shows as a client that wrote its handshake and got no answer']
